@@ -1,8 +1,9 @@
 #!/bin/bash
 # keep_seed.sh <property> <k> "<needs>" "<caught-by>" : copies a confirmed seed into /verif/seeded/<property>-s<k>/
-id=$1; k=$2; needs=$3; caught=$4; sd=/tmp/wt/seeds-$id/$k; dst=/verif/seeded/$id-s$k
+# env KEEP_FROM=<worktree name, e.g. C01r2> KEEP_K=<k in that round> take the seed from a later round
+id=$1; k=$2; needs=$3; caught=$4; src=${KEEP_FROM:-$id}; ksrc=${KEEP_K:-$k}; sd=/tmp/wt/seeds-$src/$ksrc; dst=/verif/seeded/$id-s$k
 mkdir -p $dst; cp $sd/patch.diff $dst/; cp $sd/demo*_test.go $dst/ 2>/dev/null; cp $sd/README.md $dst/NOTES.md 2>/dev/null
-verdict=$(grep "^$id/$k:" /tmp/wt/verify-$id.log | tail -1)
+verdict=$(grep "^$src/$ksrc:" /tmp/wt/verify-$src.log | tail -1)
 python3 - "$id" "$k" "$needs" "$caught" "$verdict" > $dst/meta.json <<'PY'
 import json,sys
 id,k,needs,caught,verdict=sys.argv[1:6]
